@@ -88,7 +88,7 @@ def tlc_inputs(ctx):
         sigs = sigs[:lim]
     # plus `A f(A a)`, `void f(A)` (unnamed, first use) and `A f(void)` (return only) for every aggregate (TLC "ident" mode)
     idn = L.tlc_cached(ctx, "Abi", "MC_Abi_ident.cfg", workers=4, env={"ABI_IN": inp}, timeout=1200)
-    if not idn.ok or len(idn.vcases) != 3 * len(pool) + 27:
+    if not idn.ok or len(idn.vcases) != 3 * len(pool) + 27 + 6:
         raise vlib.MachineryError("ident run failed: %s" % idn.out[-2000:])
     sigs += [json.loads(v) for v in idn.vcases]
     return pool, sigs
@@ -168,6 +168,12 @@ class SigTU:
             out.append("%s f%d(%s) { %s }" % (rt, k, plist, body))
             args = [self.tname(p, "", tags.get(j))[1] for j, p in enumerate(s["ps"])] + [self.tname(p, "")[1] for p in s["xs"]]
             out.append("void c%d(void) { f%d(%s); }" % (k, k, ", ".join(args)))
+            if any(s["rext"].values()):
+                # the sub-word result used directly as a controlling expression, once per context of Abi.tla CtrlContexts
+                call = "f%d(%s)" % (k, ", ".join(args))
+                forms = {"if": "if (%s) x = 1;", "while": "while (%s) x = 2;", "for": "for (; %s;) x = 3;", "do": "do x = 4; while (%s);",
+                         "cond": "x = %s ? 5 : 6;", "not": "x = !%s;", "and": "x = %s && x;", "or": "x = %s || x;"}
+                out.append("int e%d(void) { int x = 0; %s return x; }" % (k, " ".join(forms[c] % call for c in s["ctxs"])))
             # the same call through a pointer to the function
             out.append("void d%d(void) { typeof(f%d) *fp = f%d; fp(%s); }" % (k, k, k, ", ".join(args)))
         return "\n".join(out) + "\n"
@@ -258,6 +264,26 @@ def judge_sig(ctx, target, k, s, funcs, src, stats):
         return
     for via, call in (("", calls[0]), ("indirect-", pcalls[0])):
         judge_call(ctx, target, s, call, via, info, pcls, xcls)
+    need = s["rext"][target]
+    if need:
+        e = funcs.get("e%d" % k)
+        res = [i["res"] for b in (e["blocks"] if e else []) for i in b["insts"] if i["op"] == "call" and i["callee"].get("n") == "f%d" % k]
+        if len(res) != len(s["ctxs"]):
+            ctx.violation("sig:%s:call-missing" % target, "calls in controlling contexts missing", info)
+            return
+        bits = 8 if need.endswith("b") else 16
+        for b in e["blocks"]:
+            uses = [(i["op"], i["args"]) for i in b["insts"] if i["op"] != "call"] + ([("jnz/ret", [b["jump"]["arg"]])] if b["jump"] and b["jump"].get("arg") else [])
+            if b["phi"]:
+                uses += [("phi", [v for _, v in b["phi"]["srcs"]])]
+            for op, args in uses:
+                for a in args:
+                    if a and a.get("t") == "tmp" and a["n"] in res:
+                        masked = op == "and" and any(x.get("t") == "int" and x["v"] == (1 << bits) - 1 for x in args)
+                        if op != need and not masked:
+                            ctx.violation("sig:%s:subword-result-used-unextended:%s" % (target, s["ret"]["n"]),
+                                          "the result of a call returning a %d-bit type is used as a word (%s) without %s" % (bits, op, need),
+                                          dict(info, required=need, used_by=op))
 
 
 def judge_call(ctx, target, s, call, via, info, pcls, xcls):
